@@ -636,6 +636,120 @@ def rename_search(repo):
     return bool(g and link and rec and rec.group(1) == link.group(1) and g.end() < loop and link.end() < loop)
 
 
+def scan_buffers(repo):
+    h = _strip_comments(_read(repo, "include/express/lexact.h"))
+    t = _strip_comments(_read(repo, "src/express/lexact.c"))
+    cap = _define(h, "SCAN_NESTING_DEPTH", "lexact.h")
+    if not re.search(r"Scan_Buffer\s+SCAN_buffers\s*\[\s*SCAN_NESTING_DEPTH\s*\]", t):
+        raise ValueError("lexact.c: SCAN_buffers[SCAN_NESTING_DEPTH] not found")
+    pb = _body(t, r"static\s+void\s+SCANpush_buffer\s*\([^)]*\)\s*\{", "SCANpush_buffer")
+    if not re.search(r"\+\+\s*SCAN_current_buffer\s*;", pb):
+        raise ValueError("SCANpush_buffer: increment of SCAN_current_buffer not recognised")
+    inc = _body(t, r"void\s+SCANinclude_file\s*\(\s*char\s*\*\s*filename\s*\)\s*\{", "SCANinclude_file")
+    push = inc.find("SCANpush_buffer(")
+    g = re.search(r"if\s*\(\s*SCAN_current_buffer\s*\+\s*(\d+)\s*>=\s*SCAN_NESTING_DEPTH\s*\)\s*\{[^}]*ERRORreport_with_line\s*\(\s*INCLUDE_FILE[^}]*\}\s*else\b", inc, re.S)
+    guard = int(g.group(1)) if (g and g.start() < push) else None
+    if push < 0:
+        raise ValueError("SCANinclude_file: push not found")
+    return cap, guard
+
+
+def open_comments(repo):
+    out = []
+    for rel in ("src/express/generated/expscan.c", "src/express/expscan.l"):
+        t = _strip_comments(_read(repo, rel))
+        cap = re.search(r"#\s*define\s+MAX_NESTED_COMMENTS\s+(\d+)", t)
+        decl = re.search(r"open_comment\s*\[\s*MAX_NESTED_COMMENTS\s*\]", t)
+        stores = [m.start() for m in re.finditer(r"open_comment\s*\[\s*nesting_level\s*\]\s*\.\s*\w+\s*=", t)]
+        if not cap or not decl or not stores:
+            raise ValueError(f"{rel}: open_comment[] not recognised")
+        guarded = True
+        for st in stores:
+            before = t[max(0, st - 160):st]
+            if not re.search(r"if\s*\(\s*nesting_level\s*<\s*MAX_NESTED_COMMENTS\s*\)\s*\{\s*(open_comment\s*\[\s*nesting_level\s*\]\s*\.\s*\w+\s*=[^;]*;\s*)?$", before):
+                guarded = False
+        other = len(re.findall(r"open_comment\s*\[", t)) - len(stores) - 1
+        if other != 0:
+            raise ValueError(f"{rel}: open_comment[] is used in a way that is not modelled")
+        out.append((int(cap.group(1)), guarded))
+    if out[0] != out[1]:
+        raise ValueError(f"expscan.l and generated/expscan.c disagree on open_comment: {out}")
+    return out[0]
+
+
+def schema_files(repo):
+    t = _strip_comments(_read(repo, "src/express/express.c"))
+    cap = _define(t, "MAX_SCHEMA_FILENAME_SIZE", "express.c")
+    if not re.search(r"char\s+full\s*\[\s*MAX_SCHEMA_FILENAME_SIZE\s*\]", t):
+        raise ValueError("express.c: Dir.full not found")
+    fs = _body(t, r"Schema\s+EXPRESSfind_schema\s*\([^)]*\)\s*\{", "EXPRESSfind_schema")
+    if not re.search(r"char\s+lower\s*\[\s*MAX_SCHEMA_FILENAME_SIZE\s*\]", fs):
+        raise ValueError("EXPRESSfind_schema: lower[] not found")
+    loop = fs.find("*dest++ = tolower")
+    g = re.search(r"if\s*\(\s*strlen\s*\(\s*name\s*\)\s*>=\s*sizeof\s*\(\s*lower\s*\)\s*\)\s*\{\s*return\s+0\s*;", fs)
+    name_guard = bool(g and loop > 0 and g.start() < loop)
+    if loop < 0:
+        raise ValueError("EXPRESSfind_schema: copy into lower[] not recognised")
+    sn = re.search(r"snprintf\s*\(\s*dir->leaf\s*,\s*sizeof\s*\(\s*dir->full\s*\)\s*-\s*\(\s*dir->leaf\s*-\s*dir->full\s*\)\s*,\s*\"%s(\.\w+)\"\s*,\s*lower\s*\)", fs)
+    sp = re.search(r"\bsprintf\s*\(\s*dir->leaf\s*,\s*\"%s(\.\w+)\"\s*,\s*lower\s*\)", fs)
+    if not sn and not sp:
+        raise ValueError("EXPRESSfind_schema: file name append not recognised")
+    ext = len((sn or sp).group(1))
+    pi = _body(t, r"static\s+void\s+EXPRESS_PATHinit\s*\(\s*\)\s*\{", "EXPRESS_PATHinit")
+    cp = pi.find("strcpy( dir->full")
+    dg = re.search(r"if\s*\(\s*\(\s*size_t\s*\)\s*length\s*\+\s*(\d+)\s*>\s*sizeof\s*\(\s*dir->full\s*\)\s*\)\s*\{[^}]*continue\s*;", pi, re.S)
+    dir_guard = int(dg.group(1)) if (dg and cp > 0 and dg.start() < cp) else None
+    if cp < 0 or 'sprintf( dir->full, "%s/", start )' not in pi:
+        raise ValueError("EXPRESS_PATHinit: copies into dir->full not recognised")
+    return cap, name_guard, bool(sn), ext, dir_guard
+
+
+def escape_buffer(repo):
+    e = _strip_comments(_read(repo, "src/exp2cxx/classes_entity.c"))
+    m = re.search(r"tmp2\s*=\s*\(\s*char\s*\*\s*\)\s*malloc\s*\(\s*sizeof\s*\(\s*char\s*\)\s*\*\s*\(\s*(.+?)\s*\)\s*\)\s*;", e)
+    if not m or "format_for_stringout( tmp, tmp2 )" not in e:
+        raise ValueError("classes_entity.c: buffer for format_for_stringout not recognised")
+    expr = m.group(1)
+    a = re.fullmatch(r"(\d+)\s*\*\s*strlen\s*\(\s*tmp\s*\)\s*\+\s*(\w+)", expr)
+    b = re.fullmatch(r"strlen\s*\(\s*tmp\s*\)\s*\+\s*(\w+)", expr)
+    if a:
+        mul, add = int(a.group(1)), a.group(2)
+    elif b:
+        mul, add = 1, b.group(1)
+    else:
+        raise ValueError(f"classes_entity.c: malloc size {expr!r} not recognised")
+    add = _bufsiz() if add == "BUFSIZ" else int(add)
+    c = _strip_comments(_read(repo, "src/exp2cxx/classes.c"))
+    f = _body(c, r"char\s*\*\s*format_for_stringout\s*\([^)]*\)\s*\{", "format_for_stringout")
+    w = _body(f, r"while\s*\(\s*\*optr\s*\)\s*\{", "format_for_stringout loop")
+    branches = re.split(r"\}\s*else\s+if\s*\([^)]*\)\s*\{|\}\s*else\s*\{|if\s*\([^)]*\)\s*\{", w)
+    per = max(len(re.findall(r"\*\s*rptr\s*=", br)) for br in branches)
+    adv = len(re.findall(r"\brptr\+\+\s*;", w))
+    if per < 1 or adv < 1 or not re.search(r"\*rptr\s*=\s*'\\0'\s*;", f):
+        raise ValueError("format_for_stringout: loop not recognised")
+    return mul, add, per
+
+
+def py_call(repo):
+    t = _strip_comments(_read(repo, "src/exp2python/src/classes_python.c"))
+    big = re.search(r"#\s*define\s+BIGBUFSIZ\s+(\d+)", t)
+    f = _body(t, r"char\s*\*\s*EXPRto_python\s*\(\s*Expression\s+e\s*\)\s*\{", "EXPRto_python")
+    if not big or not re.search(r"unsigned\s+int\s+bufsize\s*=\s*BIGBUFSIZ\s*;", f) or not re.search(r"buf\s*=\s*\(\s*char\s*\*\s*\)\s*malloc\s*\(\s*bufsize\s*\)", f):
+        raise ValueError("EXPRto_python: allocation not recognised")
+    fc = re.search(r"case\s+funcall_\s*:(.*?)case\s+op_\s*:", f, re.S)
+    if not fc or not re.search(r"snprintf\s*\(\s*buf\s*,\s*bufsize\s*,\s*\"%s\(\"", fc.group(1)):
+        raise ValueError("EXPRto_python: funcall branch not recognised")
+    blk = fc.group(1)
+    lits = re.findall(r"strcat\s*\(\s*buf\s*,\s*\"([^\"]*)\"\s*\)", blk)
+    if len(lits) != 2 or "strcat( buf, temp )" not in blk:
+        raise ValueError("EXPRto_python: appends of the funcall branch not recognised")
+    g = re.search(r"if\s*\(\s*used\s*\+\s*strlen\s*\(\s*temp\s*\)\s*\+\s*sizeof\s*\(\s*\"([^\"]*)\"\s*\)\s*>\s*bufsize\s*\)\s*\{\s*bufsize\s*=\s*used\s*\+\s*strlen\s*\(\s*temp\s*\)\s*\+\s*sizeof\s*\(\s*\"([^\"]*)\"\s*\)\s*\+\s*BIGBUFSIZ\s*;\s*buf\s*=\s*\(\s*char\s*\*\s*\)\s*realloc\s*\(\s*buf\s*,\s*bufsize\s*\)", blk)
+    ensure = None
+    if g and g.group(1) == g.group(2) and g.start() < blk.find("strcat( buf, temp )") and re.search(r"size_t\s+used\s*=\s*strlen\s*\(\s*buf\s*\)\s*;", blk):
+        ensure = len(g.group(1)) + 1
+    return int(big.group(1)), ensure, len(lits[0]), len(lits[1])
+
+
 def _opt(v):
     return "none" if v is None else f"(some {v})"
 
@@ -656,6 +770,11 @@ def extract(repo):
     nest, otherwise = nesting_limits(repo)
     pyind = python_indent(repo)
     rs_guard = rename_search(repo)
+    sc_cap, sc_guard = scan_buffers(repo)
+    oc_cap, oc_guarded = open_comments(repo)
+    sf_cap, sf_name, sf_bounded, sf_ext, sf_dir = schema_files(repo)
+    es_mul, es_add, es_per = escape_buffer(repo)
+    py_init, py_ensure, py_sep, py_close = py_call(repo)
     L = []
     A = L.append
     A("-- GENERATED by tools/extract.d/c06_buffers.py from src/express/lexact.c, src/express/generated/expparse.c,")
@@ -751,6 +870,16 @@ def extract(repo):
     A(f"def pythonIndent : IndentCfg := {pyind}")
     A("/-- express.c: the rename look-up (`SCOPEfind_for_rename`) does not re-enter a schema that is already on its call chain -/")
     A(f"def renameSearchPathGuard : Bool := {str(rs_guard).lower()}")
+    A("/-- lexact.c `SCAN_buffers[SCAN_NESTING_DEPTH]` and the test in `SCANinclude_file` -/")
+    A(f"def scanCfg : ScanCfg := {{ cap := {sc_cap}, guard := {_opt(sc_guard)} }}")
+    A("/-- expscan.l / generated/expscan.c `open_comment[MAX_NESTED_COMMENTS]`: every store is inside `if (nesting_level < MAX_NESTED_COMMENTS)` -/")
+    A(f"def commentCfg : CommentCfg := {{ cap := {oc_cap}, guarded := {str(oc_guarded).lower()} }}")
+    A("/-- express.c: `lower[]`, `Dir.full[]`, the length test of EXPRESSfind_schema, the bounded append, the EXPRESS_PATH entry test -/")
+    A(f"def schemaFileCfg : SchemaFileCfg := {{ lowerCap := {sf_cap}, fullCap := {sf_cap}, nameGuard := {str(sf_name).lower()}, boundedAppend := {str(sf_bounded).lower()}, ext := {sf_ext}, dirGuard := {_opt(sf_dir)} }}")
+    A("/-- exp2cxx: `malloc( mul * strlen( tmp ) + add )` for `format_for_stringout`, which stores at most `perChar` bytes per character -/")
+    A(f"def escapeCfg : EscapeCfg := {{ mul := {es_mul}, add := {es_add}, perChar := {es_per} }}")
+    A("/-- exp2python `EXPRto_python`, function-call branch -/")
+    A(f"def pyCallCfg : PyCallCfg := {{ initial := {py_init}, ensure := {_opt(py_ensure)}, sep := {py_sep}, close := {py_close} }}")
     A("")
     A("end StepModel.Generated.C06")
     return {"C06Buffers.lean": "\n".join(L) + "\n"}
